@@ -41,3 +41,25 @@ def check(ctx):
     c12.check_loop_method(ctx, F, "R5", "update", mutable=False)
     ctx.notes.append("R5 second half (the state animator writes current_values only through Timeline::update) is C05/R8 + C06/R2")
     ctx.notes.append("not decided: nothing material; the witness family bounds 'all struct shapes'")
+
+
+def control_shape(F):
+    """the hand-written, deliberately wrong 'generated' timeline of witness/controls.rs"""
+    s = D.Shape()
+    s.F = F
+    s.crate = "witness_controls"
+    s.prefix = "witness_controls::gen::"
+    s.label = "control:gen::Ctl"
+    s.meta = None
+    s.animated = ["x", "y"]
+    s.types = {"x": "f32", "y": "f32"}
+    s.target = "Ctl"
+    s.target_fields = ["x", "y", "other"]
+    s.vis = None
+    s.sibling = False
+    return s
+
+
+def controls(ctx, F):
+    D.rule_update(ctx, control_shape(F), rule_wiring="R1", rule_touch="R1", rule_pure="R1")
+    return [("R1", "writes-unanimated-field", "hand-written update that overwrites a field which is not animated")]
